@@ -105,7 +105,7 @@ class Sequencer(object):
 
     def notify_listeners(self, msg_type, params):
         """Send a message to all the observers."""
-        for c in self.listeners:
+        for c in list(self.listeners):
             c.notify(msg_type, params)
 
     def set_instrument(self, channel, instr, bank=0):
